@@ -103,6 +103,15 @@ def glue_part(chk, classes, which, oracle):
             _wrappers.entry_points(chk, ex, cls, which, found=found)
         except pyexec.Unsupported as e:
             chk.undecided.append(("%s glue" % cls, "unsupported construct in glue: %s" % e))
+    if chk.pid not in ("C15", "C09") and any(c.startswith("CountMin") for c in classes):
+        # sketches are usually built through the CountMin() factory (helpers do): it builds what the
+        # class constructor builds from the same arguments
+        from . import C15
+
+        try:
+            C15.factory_rows(chk, ex, [c for c in classes if c.startswith("CountMin")])
+        except pyexec.Unsupported as e:
+            chk.undecided.append(("CountMin factory", "unsupported construct in glue: %s" % e))
     if chk.pid != "C16":
         # frame precondition of every kernel contract: its array operands do not overlap.  In-memory
         # tables are fresh allocations; the views of a shared-memory sketch must tile its block
@@ -120,7 +129,10 @@ def glue_part(chk, classes, which, oracle):
 PARAM_FIELDS = {"width", "depth", "uint_maxval", "max_count", "num_reserved", "base", "p", "seed", "m", "max_key_len", "phi", "alpha", "threshold", "bias_data", "raw_estimate", "args", "buckets", "rand_nums"}
 
 
-def field_stability(chk, ex):
+TABLE_FIELDS = {"cms", "n_added_records", "registers", "lhh", "lhh_count", "key_lens"}
+
+
+def field_stability(chk, ex, tables=False):
     """class invariant: no public method reassigns a parameter field (so every reachable object
     has the parameter fields its constructor gave it)"""
     from . import _wrappers
@@ -148,9 +160,15 @@ def field_stability(chk, ex):
             except X.Unsupported as e:
                 chk.undecided.append(("%s.%s" % (cls, meth), "unsupported construct in glue: %s" % e))
                 continue
-            bad = set()
+            bad, badt = set(), set()
             for o, eff in outs:
                 for e in eff:
                     if e[0] in ("setattr", "delattr") and e[1] in (sref.oid, oref.oid) and e[2] in PARAM_FIELDS:
                         bad.add(e[2])
+                    if e[0] in ("setattr", "delattr") and e[1] in (sref.oid, oref.oid) and e[2] in TABLE_FIELDS and meth != "attach_existing_shm":
+                        badt.add(e[2])
             _wrappers.row(chk, "%s.%s:does-not-reassign-parameter-fields" % (cls, meth), not bad, sorted(bad))
+            if tables:
+                # a table attribute is bound once (constructor / attach): rebinding it would cut a shared
+                # or attached sketch loose from its block - updates go *into* the arrays
+                _wrappers.row(chk, "%s.%s:does-not-rebind-its-tables" % (cls, meth), not badt, sorted(badt))
